@@ -90,6 +90,15 @@ def step (d : LD) (toks : List String) (impl : String) : LD × Res :=
                        tags := ["lresult", if d.cancelled then "cancelled" else "complete", s!"res{min res.length 16}"],
                        nontrivial := d.released ≥ 2 }
     (d, out)
+  | "clookup" :: _ =>
+    -- network-level content lookup: found bytes must be bytes some peer supplied (Props.C10.content_result); with no
+    -- holder the answer is not-found; the call returns. Whether a holder is reached depends on the topology, so the
+    -- comparison is a relation: only the monitors apply.
+    let holders := kvNat toks "holders"
+    let mon := (if impl == "wedged" then ["content_lookup_returns"] else [])
+      ++ (if impl == "found genuine=0" then ["content_is_what_a_peer_supplied"] else [])
+      ++ (if holders == 0 && impl != "notfound" then ["not_found_when_nobody_holds_it"] else [])
+    (d, { model := "", skipCompare := true, monitor := mon, tags := ["clookup", s!"holders{holders}", (impl.splitOn " ").headD ""] })
   | _ => (d, { model := "bad-op", tags := ["bad-op"], nontrivial := false })
 where showIdxOrdered (l : List Nat) : String := if l.isEmpty then "-" else ",".intercalate (l.map toString)
 
